@@ -105,9 +105,12 @@ def handle (j : Json) : R Json := do
     paired := ← parsePairings (← getArr st "paired"), verifier := none }
   let mut outs : Array Json := #[]
   for op in ← getArr j "ops" do
+    if let .ok (.str "advert") := op.getObjVal? "ev" then
+      outs := outs.push (Json.mkObj [("advert", jhex (advertisedId ps)), ("paired", jpairings ps.paired)])
+      continue
     if let .ok (.str ev) := op.getObjVal? "ev" then
       -- bystander activity: connection made/lost, a refused request on another connection
-      let e : Ev := if ev == "conn-lost" then .connLost else .other
+      let e : Ev := if ev == "conn-lost" then .connLost else if ev == "unpair" then .unpair else .other
       ps := (stepEv cfg ps e).1
       outs := outs.push (Json.mkObj [("bystander", Json.str ev), ("paired", jpairings ps.paired)])
       continue
